@@ -130,6 +130,70 @@ func SELFREF(h *rt.H) {
 	h.Assert("deep-equal", ok)
 }
 
+// selfBad refers to itself and has a member no folder or unfolder exists for.
+type selfBad struct {
+	B []selfBad
+	P *selfBad
+	C chan int
+}
+
+// SELFREF_Refused (C11, C14, C17): a self-referential type that cannot be handled is
+// refused with an error; using the same iterator / unfolder afterwards for a type
+// that refers to the refused one is refused with an error as well (or handled) -
+// never a crash on a half-built folder or unfolder.
+func SELFREF_Refused(h *rt.H) {
+	var rec ev.Recorder
+	if h.Choose("unfold", 0, 1) == 0 {
+		it, err := gotype.NewIterator(&rec)
+		h.Assert("iterator-created", err == nil)
+		h.Assert("refused", it.Fold(selfBad{}) != nil)
+		switch h.Choose("next", 0, 2) {
+		case 0:
+			h.ObserveBool("slice-refused", it.Fold([]selfBad{{}}) != nil)
+		case 1:
+			h.ObserveBool("pointer-refused", it.Fold(&selfBad{}) != nil)
+		case 2:
+			h.Assert("other-types-still-fold", it.Fold(selfRef{V: 1}) == nil)
+		}
+		return
+	}
+	u, err := gotype.NewUnfolder(nil)
+	h.Assert("unfolder-created", err == nil)
+	h.Assert("refused", u.SetTarget(&selfBad{}) != nil)
+	v := structform.EnsureExtVisitor(u)
+	feed := func() error {
+		if err := v.OnArrayStart(-1, structform.AnyType); err != nil {
+			return err
+		}
+		if err := v.OnObjectStart(-1, structform.AnyType); err != nil {
+			return err
+		}
+		if err := v.OnObjectFinished(); err != nil {
+			return err
+		}
+		return v.OnArrayFinished()
+	}
+	switch h.Choose("next", 0, 2) {
+	case 0:
+		var t []selfBad
+		if u.SetTarget(&t) == nil {
+			h.ObserveBool("slice-events-refused", feed() != nil)
+		}
+	case 1:
+		var t *selfBad
+		if u.SetTarget(&t) == nil {
+			err := v.OnObjectStart(-1, structform.AnyType)
+			if err == nil {
+				err = v.OnObjectFinished()
+			}
+			h.ObserveBool("pointer-events-refused", err != nil)
+		}
+	case 2:
+		var t []selfRef
+		h.Assert("other-types-still-unfold", u.SetTarget(&t) == nil && feed() == nil && len(t) == 1)
+	}
+}
+
 type selfSlice []selfSlice
 type selfMap map[string]selfMap
 
